@@ -424,6 +424,11 @@ def run(prop, tier, seed):
     from scheck import scenario_check
     items = items_for(prop, tier)
     cells = sorted({str(c) for c, _ in items})
+    pre_finish = None
+    if prop == 'C06':
+        import kani_engine
+        kr = kani_engine.KaniRun('node_comparisons')         # engine B runs alongside the exploration
+        pre_finish = lambda rep, native: kani_engine.absorb(rep, native, kr, prop, 'cmp')
     return scenario_check(
         prop, tier, seed, items, evaluate, sig_of,
         bounds={'nodes': 3, 'max_edges_unfiltered': 3 if tier == 'quick' else 4, 'max_edges_filtered': 3,
@@ -434,4 +439,4 @@ def run(prop, tier, seed):
                      'rustc MIR dump is what gets compiled', 'filters are pure functions of (source key, target key, value)',
                      'keys are distinct concrete integers; relabelling invariance'],
         rule='work item = (canonical connect sequence, root, target, configuration); executor paths split on filter verdicts and value comparisons; oracles (reachability, BFS distance, DFS order recognisers) run on the graph read back through the node iterators',
-        expected_cells=cells)
+        expected_cells=cells, pre_finish=pre_finish)
